@@ -373,6 +373,29 @@ func (d *badgerNodeDB) Finalize(roots []node.Root) error { // nolint: gocyclo
 			}
 
 			finalizedSeqNos[rht] = seqNo
+
+			// Chunks of a multipart restore do not record their updated nodes. When the restore runs
+			// under a non-zero sequence number (e.g. because an earlier multipart insert of this
+			// version has been aborted) all pending nodes of that sequence number belong to the
+			// restored root and need to be copied over as well.
+			if seqNo != 0 && d.multipartVersion == version {
+				pit := tx.NewIterator(badger.IteratorOptions{Prefix: pendingNodeKeyFmt.Encode(version, rht, seqNo)})
+				for pit.Rewind(); pit.Valid(); pit.Next() {
+					var (
+						pv uint64
+						pt byte
+						ps uint16
+						pk []byte
+					)
+					if !pendingNodeKeyFmt.Decode(pit.Item().Key(), &pv, &pt, &ps, &pk) {
+						pit.Close()
+						panic("mkvs/pathbadger: corrupted key")
+					}
+					notLoneNodes[rht][string(pk)] = struct{}{}
+				}
+				pit.Close()
+			}
+
 			if h := rootHash.Hash(); !h.IsEmpty() {
 				nonEmptyVisitedRoots++
 			}
